@@ -13,6 +13,7 @@ package main
 import (
 	"bufio"
 	"bytes"
+	"context"
 	"fmt"
 	"io"
 	"net"
@@ -40,12 +41,36 @@ type RspIn struct {
 	// how the client ends: 0 = ACK of the listener's FIN, then FIN|ACK; 1 = FIN|ACK that
 	// does not acknowledge the listener's FIN (crossing); 2 = FIN|ACK acknowledging it at once
 	End int `json:"end"`
+	// Script, when present, replaces Segs/Push between the handshake and the ending: client segments
+	// and WRITES of the listener itself (verif hook VerifCanary.Write = State.write) in the given order
+	Script []RspOp `json:"script,omitempty"`
+	// Steer > 0: up to that many connections are opened (further source ports of the same peer) and
+	// the one whose first data sequence number ISS+1 lies closest below 2^32 is used (ISS is drawn by
+	// the implementation from the process-wide PRNG)
+	Steer int `json:"steer,omitempty"`
+	// CrossMax > 0: if, after steering, at most that many 4096-byte writes reach 2^32, they are put in
+	// front of the script at run time so that the listener's sequence numbers cross the wrap
+	CrossMax int `json:"cross_max,omitempty"`
+}
+
+// RspOp is one scripted action after the handshake.
+type RspOp struct {
+	Write bool `json:"write,omitempty"` // the listener writes Data; otherwise the client sends Data
+	Data  hx.B `json:"data"`
+	Push  bool `json:"push,omitempty"` // client segment: PSH
+	// write: the last 16-bit word of Data is chosen at run time so that the TCP checksum field of
+	// the emitted segment comes out as 0x0000 (sum of everything else = 0 mod 0xffff)
+	Ck0     bool   `json:"ck0,omitempty"`
+	Content string `json:"content,omitempty"` // how Data was made (for the evidence only)
 }
 
 type RspStep struct {
 	Seg     Seg     `json:"seg"`
 	Fresh   [3]uint `json:"fresh,omitempty"`
 	Decoder bool    `json:"decoder"` // the decoder goroutine ran to its end during this step
+	IsWrite bool    `json:"is_write,omitempty"`
+	Written hx.B    `json:"written,omitempty"` // the bytes handed to State.write in this step (Seg = last client segment)
+	SndNxt  uint32  `json:"snd_nxt,omitempty"` // State().SendNext just before the write
 	Frames  []hx.B  `json:"frames"`
 }
 
@@ -53,6 +78,11 @@ type RspObs struct {
 	Steps  []RspStep `json:"steps"`
 	Reply  hx.B      `json:"reply"` // what the decoder writes for this stream (computed with the real net/http)
 	Events int       `json:"events"`
+	// listener writes: did the listener's sequence numbers pass 2^32 while it wrote, and how far
+	// below 2^32 the first data byte was
+	SeqWrapped bool   `json:"seq_wrapped,omitempty"`
+	WrapDist   uint32 `json:"wrap_dist,omitempty"`
+	Ck0Hit     int    `json:"ck0_hit,omitempty"` // emitted data segments whose checksum field is 0x0000
 }
 
 // ---- goroutine dump ----
@@ -146,9 +176,17 @@ func replyFor(dport int, stream []byte) []byte {
 // ---- one session ----
 func runRsp(in RspIn) (RspObs, string) {
 	var obs RspObs
+	ops := in.Script
+	if ops == nil {
+		for i, p := range in.Segs {
+			ops = append(ops, RspOp{Data: p, Push: in.Push[i] || i == len(in.Segs)-1})
+		}
+	}
 	var stream []byte
-	for _, s := range in.Segs {
-		stream = append(stream, s...)
+	for _, op := range ops {
+		if !op.Write {
+			stream = append(stream, op.Data...)
+		}
 	}
 	obs.Reply = replyFor(in.DPort, stream)
 
@@ -159,12 +197,16 @@ func runRsp(in RspIn) (RspObs, string) {
 		hx.Fatal("NewVerifCanary: %v", err)
 	}
 	defer v.Close()
-	// the knock detector is not started: handleTCP only queues into its (buffered) channel
+	// handleTCP queues every SYN into the knock detector's channel: it has to be drained
+	ctx, cancel := context.WithCancel(context.Background())
+	defer cancel()
+	v.StartKnockDetector(ctx)
 
 	var crash string
 	var srvNext uint32 // next sequence number expected from the listener
 	sent := uint32(0)
 	handler := 0
+	var lastSeg Seg
 	step := func(flags int, payload []byte, ackOverride *uint32) *RspStep {
 		s := Seg{SIP: in.SIP, DIP: me, SPort: in.SPort, DPort: in.DPort, Seq: in.ISN + 1 + sent, Ack: srvNext, Flags: flags, Payload: payload}
 		if flags&fSYN != 0 {
@@ -175,6 +217,7 @@ func runRsp(in RspIn) (RspObs, string) {
 			s.Ack = *ackOverride
 		}
 		st := RspStep{Seg: s}
+		lastSeg = s
 		func() {
 			defer func() {
 				if rec := recover(); rec != nil {
@@ -231,6 +274,86 @@ func runRsp(in RspIn) (RspObs, string) {
 	if step(fSYN, nil, nil) == nil {
 		return obs, crash
 	}
+	if in.Steer > 0 && len(obs.Steps[0].Frames) == 1 {
+		// look for a connection whose ISS is close below 2^32: each further SYN (another source
+		// port of the same peer: no port value is shared, the lookups cannot confuse them) creates a
+		// record with a fresh ISS; the SYN step of the best one is kept
+		total := uint32(0)
+		for _, op := range ops {
+			if op.Write {
+				total += uint32(len(op.Data))
+			}
+		}
+		best, bestNext, bestPort := obs.Steps[0], srvNext, in.SPort
+		orig := in.SPort
+		for i := 1; i <= in.Steer && i < 64000 && -bestNext > total; i++ { // -x = distance of x to 2^32
+			in.SPort = 1024 + (orig-1024+i)%64512 // every candidate once
+			if in.SPort == in.DPort || in.SPort == 22 {
+				continue
+			}
+			obs.Steps = nil
+			if step(fSYN, nil, nil) == nil {
+				return obs, crash
+			}
+			if len(obs.Steps[0].Frames) == 1 && -srvNext < -bestNext {
+				best, bestNext, bestPort = obs.Steps[0], srvNext, in.SPort
+			}
+		}
+		obs.Steps, srvNext, in.SPort, lastSeg = []RspStep{best}, bestNext, bestPort, best.Seg
+	}
+	obs.WrapDist = -srvNext
+	if n := int(obs.WrapDist/4096) + 1; in.CrossMax > 0 && n <= in.CrossMax {
+		fill := hx.NewRand(uint64(in.ISN) + 77)
+		var pre []RspOp
+		for i := 0; i < n; i++ {
+			pre = append(pre, RspOp{Write: true, Data: hx.B(fill.Bytes(4096)), Content: "random"})
+		}
+		ops = append(pre, ops...)
+	}
+	writeStep := func(op RspOp) bool {
+		data := append([]byte(nil), op.Data...)
+		sip, dip := net.IP(in.SIP[:]), net.IP(me[:])
+		si := v.State(sip, dip, uint16(in.SPort), uint16(in.DPort))
+		if si == nil {
+			crash = "no connection record for the established connection"
+			return false
+		}
+		if op.Ck0 && len(data) >= 2 {
+			steerChecksumZero(in, si.SendNext, si.RecvNext, data)
+		}
+		st := RspStep{Seg: lastSeg, IsWrite: true, Written: hx.B(data), SndNxt: si.SendNext}
+		func() {
+			defer func() {
+				if rec := recover(); rec != nil {
+					crash = fmt.Sprint("panic in State.write: ", rec)
+				}
+			}()
+			if !v.Write(sip, dip, uint16(in.SPort), uint16(in.DPort), data) {
+				crash = "no connection record for the write"
+			}
+		}()
+		if crash == "" && handler != 0 && waitHandler(handler, 30*time.Second) != "parked" {
+			crash = "a write of the listener disturbed the port handler"
+		}
+		for _, f := range v.DrainTx() {
+			st.Frames = append(st.Frames, hx.B(f))
+			if fl, seq, _, _, ok := parseOut(f); ok {
+				n := uint32(len(f) - 54)
+				if seq+n < seq {
+					obs.SeqWrapped = true
+				}
+				if n > 0 && f[50] == 0 && f[51] == 0 {
+					obs.Ck0Hit++
+				}
+				srvNext = seq + n
+				if fl&fFIN != 0 {
+					srvNext++
+				}
+			}
+		}
+		obs.Steps = append(obs.Steps, st)
+		return crash == ""
+	}
 	before := handlerGoroutines()
 	if step(fACK, nil, nil) == nil {
 		return obs, crash
@@ -254,12 +377,18 @@ func runRsp(in RspIn) (RspObs, string) {
 	if waitHandler(handler, 30*time.Second) != "parked" {
 		return obs, "the port handler does not wait for the client's data"
 	}
-	for i, p := range in.Segs {
+	for _, op := range ops {
+		if op.Write {
+			if !writeStep(op) {
+				return obs, crash
+			}
+			continue
+		}
 		fl := fACK
-		if in.Push[i] || i == len(in.Segs)-1 {
+		if op.Push {
 			fl |= fPSH
 		}
-		if step(fl, p, nil) == nil {
+		if step(fl, op.Data, nil) == nil {
 			return obs, crash
 		}
 	}
@@ -314,10 +443,14 @@ func coqRspCase(id int, in RspIn, obs RspObs) string {
 		for _, f := range st.Frames {
 			fr = append(fr, hx.CoqBytes(f))
 		}
-		steps = append(steps, fmt.Sprintf("mkStep (mkSeg %s %s %s %s %s %s %s %s) (%s, %s, %s) %s %s", coqIP(s.SIP), coqIP(s.DIP),
+		wr := "(@None bytes)"
+		if st.IsWrite {
+			wr = "(Some " + hx.CoqBytes(st.Written) + ")"
+		}
+		steps = append(steps, fmt.Sprintf("mkStep (mkSeg %s %s %s %s %s %s %s %s) (%s, %s, %s) %s %s %s", coqIP(s.SIP), coqIP(s.DIP),
 			hx.CoqZ(int64(s.SPort)), hx.CoqZ(int64(s.DPort)), hx.CoqZ(int64(s.Seq)), hx.CoqZ(int64(s.Ack)), hx.CoqZ(int64(s.Flags)),
 			hx.CoqBytes(s.Payload), hx.CoqN(uint64(st.Fresh[0])), hx.CoqZ(int64(st.Fresh[1])), hx.CoqZ(int64(st.Fresh[2])),
-			hx.CoqBool(st.Decoder), hx.CoqList(fr, "bytes")))
+			wr, hx.CoqBool(st.Decoder), hx.CoqList(fr, "bytes")))
 	}
 	return fmt.Sprintf("mkCase %s [0;0;0;0;0;0]%%N [127;0;0;1]%%N %s %s", hx.CoqN(uint64(id)), hx.CoqBytes(obs.Reply), hx.CoqList(steps, "step"))
 }
@@ -450,17 +583,158 @@ func rspInputs(o hx.Opts, r *hx.Rand) []RspIn {
 	return ins
 }
 
+// steerChecksumZero rewrites the last aligned 16-bit word of data so that the ones'-complement sum
+// over pseudo header + TCP header (checksum field zero) + data is 0 mod 0xffff: the checksum the
+// listener stores is then 0x0000.
+func steerChecksumZero(in RspIn, seq, ack uint32, data []byte) {
+	at := (len(data) - 2) &^ 1
+	var s uint64
+	w := func(hi, lo byte) { s += uint64(hi)<<8 | uint64(lo) }
+	w(me[0], me[1])
+	w(me[2], me[3])
+	w(in.SIP[0], in.SIP[1])
+	w(in.SIP[2], in.SIP[3])
+	s += 6 + 20 + uint64(len(data))
+	s += uint64(in.DPort) + uint64(in.SPort)
+	s += uint64(seq>>16) + uint64(seq&0xffff) + uint64(ack>>16) + uint64(ack&0xffff)
+	s += 0x5000 | fPSH | fACK
+	s += 65535 // window
+	for i := 0; i < len(data); i += 2 {
+		if i == at {
+			continue
+		}
+		if i+1 < len(data) {
+			w(data[i], data[i+1])
+		} else {
+			w(data[i], 0)
+		}
+	}
+	x := (65535 - s%65535) % 65535
+	data[at], data[at+1] = byte(x>>8), byte(x)
+}
+
+// contents of a write
+func writeContent(r *hx.Rand, kind, n int) []byte {
+	b := make([]byte, n)
+	switch kind % 5 {
+	case 0: // all zero
+	case 1:
+		for i := range b {
+			b[i] = 0xff
+		}
+	case 2, 4: // random (4: its last word is steered for a zero checksum field)
+		copy(b, r.Bytes(n))
+	case 3: // 0xffff words alternating with 0x0001: every second addition carries
+		for i := range b {
+			b[i] = []byte{0xff, 0xff, 0x00, 0x01}[i%4]
+		}
+	}
+	return b
+}
+
+// writeLengths: every length 0..64 once, then the pairs around the powers of two, the reply
+// length, the MSS and the ring/page size, then random ones
+func writeLengths(o hx.Opts, r *hx.Rand) []int {
+	var ls []int
+	for n := 0; n <= 64; n++ {
+		ls = append(ls, n)
+	}
+	ls = append(ls, 69, 70, 127, 128, 255, 256, 511, 512, 1023, 1024, 1459, 1460, 1461, 4095, 4096)
+	extra := 9
+	if o.Tier != "quick" {
+		extra = 300
+	}
+	for i := 0; i < extra; i++ {
+		switch r.Intn(3) {
+		case 0:
+			ls = append(ls, r.Range(0, 200))
+		case 1:
+			ls = append(ls, r.Range(200, 1500))
+		default:
+			ls = append(ls, r.Range(1500, 4096))
+		}
+	}
+	return ls
+}
+
+func writeInputs(o hx.Opts, r *hx.Rand) []RspIn {
+	var ins []RspIn
+	isns := []uint32{0, 1, 0x7fffffff, 0x80000000, 0xfffffffe, 0xffffffff, 0xfffffff0}
+	rounds := 1
+	if o.Tier != "quick" {
+		rounds = 5 // every length meets every kind of content
+	}
+	k := 0
+	for round := 0; round < rounds; round++ {
+		ls := writeLengths(o, r)
+		for len(ls) > 0 {
+			n := r.Range(1, 6)
+			if n > len(ls) {
+				n = len(ls)
+			}
+			in := RspIn{SIP: [4]byte{10, byte(r.Range(0, 255)), byte(r.Range(0, 255)), byte(r.Range(1, 254))}, SPort: r.Range(1024, 60000),
+				DPort: r.PickInt([]int{5555, 8081, 31337, 7777, 2222, 1, 65535}), End: k % 3}
+			if k%5 == 4 { // decoded, read-only: the decoder goroutine waits in Read like the generic reader
+				in.DPort = r.PickInt([]int{23, 6379, 1433, 445, 139})
+			}
+			if r.Chance(1, 2) {
+				in.ISN = isns[r.Intn(len(isns))]
+			} else {
+				in.ISN = uint32(r.U64())
+			}
+			for j, l := range ls[:n] {
+				kind := k + j + round
+				in.Script = append(in.Script, RspOp{Write: true, Data: hx.B(writeContent(r, kind, l)), Ck0: kind%5 == 4,
+					Content: []string{"all-zero", "all-0xff", "random", "0xffff-0x0001-words", "random-steered-to-checksum-0x0000"}[kind%5]})
+				if r.Chance(1, 3) { // client data in between: not pushed, the handler keeps waiting
+					in.Script = append(in.Script, RspOp{Data: hx.B(r.Bytes(r.Range(1, 100)))})
+				}
+			}
+			ls = ls[n:]
+			if r.Chance(1, 4) { // the first operation is a client segment
+				in.Script = append([]RspOp{{Data: hx.B(r.Bytes(r.Range(1, 60)))}}, in.Script...)
+			}
+			// a pushed segment (sometimes empty) lets the handler read, close and report
+			in.Script = append(in.Script, RspOp{Data: hx.B(r.Bytes(r.PickInt([]int{0, 1, 2, 17, 300}))), Push: true})
+			if r.Chance(1, 3) {
+				var sent int
+				for _, op := range in.Script {
+					if !op.Write {
+						sent += len(op.Data)
+					}
+				}
+				in.ISN = uint32(int64(1)<<32 - 2 - int64(sent) + int64(r.Range(0, 2)))
+			}
+			if r.Chance(1, 4) {
+				in.Tail = hx.B(r.Bytes(r.Range(1, 200)))
+			}
+			if k%4 == 0 {
+				in.Steer = 150
+			}
+			if o.Tier != "quick" && k%40 == 0 && round == 0 {
+				// a serious attempt at the wrap on the listener's side: 25000 draws of the ISS leave an
+				// expected 170 KB to 2^32, which up to 120 writes of 4096 bytes cover
+				in.Steer, in.CrossMax = 25000, 120
+			}
+			ins = append(ins, in)
+			k++
+		}
+	}
+	return ins
+}
+
 func rspPart(o hx.Opts, r *hx.Rand, only *RspIn) {
 	var ins []RspIn
 	if only != nil {
 		ins = []RspIn{*only}
 	} else {
 		ins = rspInputs(o, r)
+		ins = append(ins, writeInputs(o, r)...)
 	}
 	dist := map[string]int{}
 	var cases []hx.Case
 	for i, in := range ins {
-		if len(in.Push) != len(in.Segs) {
+		if in.Script == nil && len(in.Push) != len(in.Segs) {
 			in.Push = make([]bool, len(in.Segs))
 		}
 		obs, crash := runRsp(in)
@@ -469,7 +743,7 @@ func rspPart(o hx.Opts, r *hx.Rand, only *RspIn) {
 		for _, st := range obs.Steps {
 			for _, f := range st.Frames {
 				if len(f) > 54 {
-					dist[fmt.Sprintf("emitted-segment-length:%d", len(f)-34)]++
+					dist["emitted-data-segment-payload:"+lenBucket(len(f)-54)]++
 					if (len(f)-34)%2 == 1 {
 						dist["emitted-odd-length-segments"]++
 					} else {
@@ -480,6 +754,37 @@ func rspPart(o hx.Opts, r *hx.Rand, only *RspIn) {
 			if st.Decoder {
 				dist["decoder-ran-to-its-end"]++
 			}
+			if st.IsWrite {
+				n := len(st.Written)
+				dist["listener-writes"]++
+				dist[fmt.Sprintf("written-length:%s", lenBucket(n))]++
+				if n%2 == 1 {
+					dist["written-odd-lengths"]++
+				} else {
+					dist["written-even-lengths"]++
+				}
+				if len(st.Frames) != 1 {
+					dist["writes-not-answered-by-exactly-one-frame"]++
+				}
+			}
+		}
+		for _, op := range in.Script {
+			if op.Write {
+				dist["written-content:"+op.Content]++
+			}
+		}
+		if in.CrossMax > 0 {
+			dist["attempts-to-cross-2^32-on-the-listener-side"]++
+		}
+		if in.Script != nil {
+			dist["sessions-with-listener-writes"]++
+			if obs.SeqWrapped {
+				dist["listener-sequence-numbers-crossed-2^32"]++
+			}
+			dist["data-segments-with-checksum-field-0x0000"] += obs.Ck0Hit
+			if d := int(obs.WrapDist >> 20); in.Steer > 0 && (dist["steered:min-MiB-below-2^32"] == 0 || d+1 < dist["steered:min-MiB-below-2^32"]) {
+				dist["steered:min-MiB-below-2^32"] = d + 1 // rounded up
+			}
 		}
 		if len(obs.Reply) > 0 {
 			dist["sessions-with-a-reply"]++
@@ -488,7 +793,24 @@ func rspPart(o hx.Opts, r *hx.Rand, only *RspIn) {
 		if writingPorts[in.DPort] {
 			kind = "session-writing-port"
 		}
+		if in.Script != nil {
+			kind = "session-listener-writes"
+		}
 		cases = append(cases, hx.Case{ID: i, Kind: kind, Input: in, Obs: obs, Crash: crash, Coq: coqRspCase(i, in, obs)})
 	}
 	hx.Write(o, "C14", "rsp", "From HT Require Import Common.Bytes C14.Model C14.CheckRsp.", "case", cases, dist, nil, 40)
+}
+
+func lenBucket(n int) string {
+	switch {
+	case n <= 64:
+		return "0..64"
+	case n <= 256:
+		return "65..256"
+	case n <= 1024:
+		return "257..1024"
+	case n <= 1461:
+		return "1025..1461"
+	}
+	return "1462..4096"
 }
